@@ -58,8 +58,9 @@ def classify(component, what, case):
         if flags is not None and (flags & 16):
             # F50 corrupts the shared value: what follows in the same process, and the printers' error exits when a
             # half-built value cannot be printed, are consequences — only in the regime with shared unions
-            if case.get("summary", "").startswith("SEGV") and "F50" in (case.get("prior") or []):
-                return "F50"
+            if case.get("summary", "").startswith("SEGV") and ("F50" in (case.get("prior") or []) or
+                                                              fr & {"lyplg_type_print_union", "lyplg_type_compare_union", "lyplg_type_sort_union"}):
+                return "F50"                               # … incl. a reader that finds the member value zeroed (realtype NULL)
             if "leaked in" in case.get("summary", "") and fr & {"json_print_data", "xml_print_data", "lyb_print_data"}:
                 return "F50"
             if "runtime error" in case.get("summary", "") and (fr & {"lyplg_type_print_union", "union_store_type"} or
